@@ -538,12 +538,53 @@ def c04_toggle(res, run, world, rng, n):
 def c04_work(item, ctx):
     res = F.Res()
     kind = item[0]
-    exe = ctx["exes"]["asan"]
+    two = kind in ("matrix2", "toggle2")
+    exe = ctx["exes"]["asan2" if two else "asan"]
     rng = random.Random(F.seed_for(ctx["seed"], "C04", *item))
-    world = World(rng, ns=1, small=(kind != "matrix"))
+    world = World(rng, ns=2 if two else 1, small=(kind not in ("matrix", "matrix2")))
     sim = S.Sim(exe, world.cfg)
     run = Runner(res, sim, world, "C04")
     try:
+        if two:
+            # two servers: the requests go to one server while the other one has a transfer open (initiate answered, not finished) on an
+            # object of its own - "a positive response to an initiate request always concerns the object named in that request"
+            sv = item[1] % 2
+            run.remap = {0: sv}
+            how = rng.choice(["segup", "blkup", "segdown"])
+            o_ = world.pick(lambda o: o.kind == "dom" and o.readable and o.size() > 14 and (how != "segdown" or o.writable))
+            fr_ = {"segup": bytes([0x40]) + RC.mux(o_.idx, o_.sub) + bytes(4), "blkup": bytes([0xA0]) + RC.mux(o_.idx, o_.sub) + bytes([4, 0, 0, 0]),
+                   "segdown": bytes([0x21]) + RC.mux(o_.idx, o_.sub) + (9).to_bytes(4, "little")}[how]
+            evs_ = sim.rx(world.req_id(1 - sv), fr_)
+            got_ = [(cid, d) for (t, cid, dlc, d, f) in S.txs(evs_)]
+            if len(got_) != 1 or got_[0][0] != world.resp_id(1 - sv) or got_[0][1][0] == 0x80:
+                res.inconclusive.append("could not open a transfer on the other server: %r" % got_)
+                return res
+            res.counters["requests_beside_open_transfer_on_other_server"] += 1
+            # (the object of the open transfer is left alone meanwhile: one object under two servers is the recorded finding of C02)
+            hidden = world.om.pop((o_.idx, o_.sub))
+            if kind == "matrix2":
+                c04_matrix(res, run, world, rng, item[2])
+            else:
+                c04_toggle(res, run, world, rng, item[2])
+            world.om[(o_.idx, o_.sub)] = hidden
+            # the transfer left open on the other server is still there and still its own: the next segment / block is served
+            nxt = {"segup": bytes([0x60]) + bytes(7), "blkup": bytes([0xA3]) + bytes(7), "segdown": bytes([0x00]) + bytes(7)}[how]
+            evs_ = sim.rx(world.req_id(1 - sv), nxt)
+            got_ = [(cid, d) for (t, cid, dlc, d, f) in S.txs(evs_)]
+            ok_ = bool(got_) and all(cid == world.resp_id(1 - sv) for cid, d in got_) and got_[0][1][0] != 0x80
+            if ok_ and how == "segup":
+                ok_ = got_[0][1][1:8] == o_.bytes()[:7]
+            if ok_ and how == "blkup":
+                segs = (o_.size() + 6) // 7
+                ok_ = len(got_) == min(4, segs)
+                for i_, (cid, d) in enumerate(got_):
+                    part = o_.bytes()[7 * i_:7 * i_ + 7]
+                    ok_ = ok_ and d[0] == ((i_ + 1) | (0x80 if i_ + 1 == segs else 0)) and d[1:1 + len(part)] == part
+            if not ok_:
+                res.violation("c04/two-servers/open-transfer-disturbed", "%s of %04x:%02x left open on server %d while server %d was used: continuation answered %r" % (
+                    how, o_.idx, o_.sub, 1 - sv, sv, [("%x" % c, d.hex()) for c, d in got_][:5]), sim=sim)
+            res.nt(kind, item[1], how)
+            return res
         if kind == "rejected":
             c04_rejected_values(res, run, world, rng)
             return res
@@ -792,7 +833,7 @@ def c05_work(item, ctx):
 
 def configure(m, prop):
     if prop == "C04":
-        m.VARIANTS = ["asan"]
+        m.VARIANTS = ["asan", "asan2"]
         m.RULE = ("(a) upload request for every index 0000h..FFFFh x 4 sub-indices; (b) access matrix: every request kind x size class on every "
                   "object and on absent neighbours, verdict / abort code / multiplexer / storage compared with the CiA 301 rules; (c) enumerated "
                   "protocol state (13, incl. six just-completed transfers after which the server must be idle) x command byte (256) x 7 payloads with the acceptable response counts of the relational model and "
@@ -815,6 +856,8 @@ def configure(m, prop):
                 for c0 in range(0, 256, 32 if q else 16):
                     items.append(("sweep", st, c0, 32 if q else 16))
             items += [("toggle", i, 30 if q else 200) for i in range(8 if q else 32)]
+            items += [("matrix2", i, 30 if q else 300) for i in range(8 if q else 128)]
+            items += [("toggle2", i, 20 if q else 150) for i in range(4 if q else 16)]
             items += [("nodeid", i, 0) for i in range(4)]
             items += [("sdoid", i, 0) for i in range(4)]
             items += [("sdoid-stored", i, 0) for i in range(4)]
